@@ -90,6 +90,7 @@ def run_case(case):
         'draw_sizes': [d[0] for d in rec.draws],
         'time': md.get(Dynamics.TIME), 'events': md.get(Dynamics.EVENTS),
         'steps': md.get(SynchronousDynamics.TIMESTEPS_WITH_EVENTS, 0),
+        'tranches': rec.tranches,
         'pending_after': None,
     }
     if exc and exc.startswith('Budget'):
